@@ -46,7 +46,7 @@ class SpanActionCallback(ActionCallback):
         for span in self.__spans:
             try:
                 span.close()
-            except Exception:
+            except BaseException:
                 # one span processor failing must not stop the other spans from being closed (or reach the app)
                 deep.logging.exception("Failed to close span %s", span)
         return False
@@ -94,7 +94,7 @@ class SpanActionContext(ActionContext):
         for span_processor in self.trigger_context.config.span_processors:
             try:
                 span = span_processor.create_span(name, self.trigger_context.id, self.location_action.tracepoint.id)
-            except Exception:
+            except BaseException:
                 # one span processor failing must not stop the others from creating their span
                 deep.logging.exception("Failed to create span with %s", span_processor)
                 continue
